@@ -13,6 +13,7 @@ loads, in-place mutations, calls, returns, raises, tests) each with the
 guards that dominate it, plus the merged state at normal exit.
 """
 import ast
+import os
 from . import terms as T
 from .terms import R, atom, const
 from .loader import AnalysisError
@@ -293,11 +294,11 @@ class Evaluator:
         self.frames.append(fr)
         self.emit("enter", node or fi.node, callee=fi.qualname, fi=fi)
         cur = State(st.attrs, locs)
-        cur = self.exec_block(fi.node.body, cur.copy())
+        cur = self.exec_block(fi.node.body, cur.copy(), keep=True)
         # merge exits
         exits = list(fr.exits)
         if cur is not None:
-            exits.append((T.TRUE, cur, T.NONE))
+            exits.append((self._pc_cond(fr.pc_base), cur, T.NONE))   # falling off the end, under what the body left on the path
         del self.pc[fr.pc_base:]
         if not exits:
             self.emit("exit", node or fi.node, callee=fi.qualname, fi=fi, value=None)
@@ -309,7 +310,17 @@ class Evaluator:
         # the i-th exit is taken when its condition holds and no earlier exit was taken: inside the else-branches of the
         # earlier exits their negations are known, so conjuncts of later conditions that merely repeat them are dropped
         # (`if a: return x` / `if b: return y` / `return z`  ==  ite(a, x, ite(b, y, z)), not ite(a, x, ite(not a and b, ...)))
-        known = []
+        # what holds on every normal exit (typically: the conditions under which an earlier `raise` was not taken) carries no
+        # information for choosing between the exits
+        common = None
+        for c, _s, _v in exits:
+            cj = _conjuncts(c)
+            common = list(cj) if common is None else [x for x in common if any(x == y for y in cj)]
+        known = list(common or [])
+        if os.environ.get("SA_DEBUG_EXITS") == fi.qualname:
+            for c, _s, _v in exits:
+                print("EXIT", fi.qualname, [T.pretty(x)[:110] for x in _conjuncts(c)])
+            print("COMMON", [T.pretty(x)[:110] for x in known])
         simplified = []
         for c, s, v in exits[:-1]:
             cj = [x for x in _conjuncts(c) if not any(x == k for k in known)]
@@ -419,6 +430,8 @@ class Evaluator:
         if isinstance(s, ast.FunctionDef):
             sub = fr.func.nested.get(s.name)
             st.locs[s.name] = atom(("closure", sub.qualname if sub else s.name))
+            if sub is not None:
+                self._closure_envs[sub.qualname] = (fr.func, st.locs)   # the scope its free variables live in
             return st
         if isinstance(s, ast.Pass):
             return st
@@ -1057,6 +1070,12 @@ class Evaluator:
                 i = idx.const_value()
                 if i.denominator == 1 and -len(a[1]) <= int(i) < len(a[1]):
                     return a[1][int(i)]
+            if a[0] in ("list", "tuple"):
+                sl = idx.single_atom()
+                if sl is not None and sl[0] == "slice" and all(x == T.NONE or (x.is_const() and x.const_value().denominator == 1) for x in sl[1:]):
+                    # a constant slice of a literal collection is the literal collection of the selected items
+                    py = slice(*[None if x == T.NONE else int(x.const_value()) for x in sl[1:]])
+                    return atom((a[0], tuple(a[1][py])))
             if a[0] == "dict" and T.is_pure_const(idx):
                 for k, v in a[1]:
                     if k == idx:
@@ -1528,9 +1547,16 @@ class Evaluator:
             f = f.parent
         return self._lib_call(name, args, kwargs, st, node)
 
+    _closure_envs = {}
+
     def _call_closure(self, fi, args, kwargs, st, node):
         self.emit("call", node, callee=("closure", fi.qualname), fi=fi, args=tuple(args), kwargs=_kw(kwargs), result=None)
-        v, st2 = self.call_function(fi, False, args, kwargs, st, node, closure_locs=st.locs)
+        env = st.locs
+        rec = self._closure_envs.get(fi.qualname)
+        if rec is not None and rec[0] is not self.frames[-1].func:
+            # called from another function (passed as an argument): its free variables are those of the function that defined it
+            env = rec[1]
+        v, st2 = self.call_function(fi, False, args, kwargs, st, node, closure_locs=env)
         if st2 is not None:
             st.attrs = st2.attrs
         return v
@@ -1554,6 +1580,8 @@ class Evaluator:
             return args[0]
         if d == "bool" and len(args) == 1 and not kwargs and T._boolish(args[0]):
             return args[0]
+        if d == "bool" and len(args) == 1 and not kwargs and T.is_pure_const(args[0]):
+            return const(bool(T.const_py(args[0])))
         if d == "getattr" and len(args) in (2, 3) and not kwargs and self.frames and len(self.frames) == 1 and \
                 (args[1].single_atom() or ("",))[0] == "param":
             # a helper taking the attribute name as a parameter, evaluated on its own: the read is opaque here (its call sites,
@@ -1753,9 +1781,15 @@ class Evaluator:
         if name in _ARRAY_REDUCTIONS and ci is None and (ra is None or ra[0] not in ("global", "dict", "list", "tuple", "set")):
             # x.sum(axis=1) is numpy.sum(x, axis=1) for arrays, frames and series alike: one normal form for both spellings
             res = atom(("call", "numpy." + name, (recv,) + tuple(args), _kw(kwargs)))
-        if name == "get" and ci is None and len(args) == 2 and not kwargs:
-            # d.get(k, default)  ==  d[k] if k in d else default
-            res = T.mk_ite(atom(("in", args[0], recv)), self.mk_sub(recv, args[0]), args[1])
+        if name == "get" and ci is None and len(args) in (1, 2) and not kwargs:
+            # d.get(k, default)  ==  d[k] if k in d else default   (default None when not given)
+            dflt = args[1] if len(args) == 2 else T.NONE
+            ra_ = recv.single_atom()
+            if ra_ is not None and ra_[0] == "dict" and T.is_pure_const(args[0]) and all(T.is_pure_const(k_) for k_, _v in ra_[1]):
+                hit = [v_ for k_, v_ in ra_[1] if k_ == args[0]]
+                res = hit[0] if hit else dflt
+            else:
+                res = T.mk_ite(atom(("in", args[0], recv)), self.mk_sub(recv, args[0]), dflt)
         tgt = None
         mutates = name in MUTATORS
         if ci is not None:
@@ -1833,6 +1867,16 @@ def _pure_literal(n, mi, depth=0):
         return _pure_literal(n.operand, mi, depth + 1)
     if isinstance(n, ast.Name) and n.id in mi.globals and n.id not in mi.imports:
         return _pure_literal(mi.globals[n.id], mi, depth + 1)
+    if isinstance(n, ast.Name) and (n.id in mi.functions or n.id in mi.classes):
+        return True   # a table of module-level functions / classes (dispatch tables)
+    if isinstance(n, ast.Lambda):
+        a = n.args
+        if a.vararg or a.kwarg or a.kwonlyargs or a.defaults or a.posonlyargs:
+            return False
+        import builtins as _b
+        params = {x.arg for x in a.args}
+        free = {x.id for x in ast.walk(n.body) if isinstance(x, ast.Name)} - params
+        return all(x in mi.imports or x in mi.classes or x in mi.functions or x in mi.globals or hasattr(_b, x) for x in free)
     return False
 
 
